@@ -483,6 +483,84 @@ def reset_ranges(ctx, fx):
         ctx.ob("C18.bitset.reset-ranges", "reset_bitset", not det, "; ".join(det[:3]), fn.loc(), "ranges", fnkey=f["key"])
 
 
+def cvc_partners(ctx, fx):
+    ctx.rule("C18.cvc.partner-table",
+             "isNotCommPartnerCVC (who is skipped under a cartesian vertex cut): four switch tables -- (transposed or not) x "
+             "(reduce over the write location, broadcast over the read location). In each table the source case tests one grid "
+             "dimension, the destination case the other, the any case both; for the same orientation the reduce and the "
+             "broadcast table agree (proxies with out-edges sit on one grid line whether they were written or are to be read: "
+             "the broadcast must reach exactly the hosts the reduce collected from); the transposed tables are the "
+             "non-transposed ones with the dimensions swapped; anchor: not transposed, source -> same grid row (CuSP blocks "
+             "sources by rows)")
+    fs = [f for f in fx.functions if f["qn"] == GS + "isNotCommPartnerCVC" and f["kind"] == "inst"]
+    ctx.floor("isNotCommPartnerCVC instantiations", len(fs), 1)
+    for f in fs[:2]:
+        fn = ctx.fn(f)
+        det = []
+        reach = {}
+        for t in (0, 1):
+            eok = R.edges_under(fn, {"this->transposed": t})
+            seen = set()
+            fn.search([fn.entry_state()], edge_ok=eok, through=lambda pos, e: seen.add(pos[0]))
+            # blocks without events are not reported by `through`: walk block ids by reachability as well
+            todo, vis = [fn.f["entry"]], set()
+            while todo:
+                b = todo.pop()
+                if b in vis or b not in fn.blocks:
+                    continue
+                vis.add(b)
+                for i, s_ in enumerate(fn.blocks[b].get("succ", [])):
+                    if s_ is not None and eok(b, i, s_):
+                        todo.append(s_)
+            reach[t] = vis
+        tables = {}
+        for bid, b in fn.blocks.items():
+            term = b.get("term") or {}
+            if term.get("cls") != "SwitchStmt":
+                continue
+            var = S(term.get("cond"))
+            kind = "reduce" if var == "writeLocation" else ("broadcast" if var == "readLocation" else None)
+            if kind is None:
+                continue
+            ts = [t for t in (0, 1) if bid in reach[t]]
+            if len(ts) != 1:
+                det.append("a switch on %s is reachable for both orientations" % var)
+                continue
+            tab = {}
+            for s_ in b.get("succ", []):
+                if s_ is None:
+                    continue
+                lab = fn.blocks[s_].get("label") or {}
+                if lab.get("k") != "case":
+                    continue
+                role = "source" if lab.get("text", "").endswith("Source") else "destination" if lab.get("text", "").endswith("Destination") else "any"
+                hits, _ = fn.search([(s_, 0)], stop=lambda e: e.get("k") == "ret")
+                dims = set()
+                for h in hits:
+                    r = S(fn.ev(h).get("e"))
+                    dims.add("both" if ("gridRowID" in r and "gridColumnID" in r) else "row" if "gridRowID" in r else
+                             "column" if "gridColumnID" in r else r)
+                tab[role] = "/".join(sorted(dims))
+            tables[(ts[0], kind)] = tab
+        if len(tables) != 4:
+            det.append("expected four partner tables, found %s" % sorted(tables))
+        else:
+            for key, tab in sorted(tables.items()):
+                if {tab.get("source"), tab.get("destination")} != {"row", "column"} or tab.get("any") != "both":
+                    det.append("%s %s: %s" % ("transposed" if key[0] else "not transposed", key[1], tab))
+            for t in (0, 1):
+                if tables[(t, "reduce")] != tables[(t, "broadcast")]:
+                    det.append("%s: reduce skips by %s but broadcast by %s -- the broadcast does not reach the hosts whose "
+                               "mirrors are read" % ("transposed" if t else "not transposed", tables[(t, "reduce")], tables[(t, "broadcast")]))
+            sw = {"row": "column", "column": "row", "both": "both"}
+            for kind in ("reduce", "broadcast"):
+                if {k: sw.get(v, v) for k, v in tables[(0, kind)].items()} != tables[(1, kind)]:
+                    det.append("%s: the transposed table is not the non-transposed one with the dimensions swapped" % kind)
+            if tables[(0, "reduce")].get("source") != "row":
+                det.append("not transposed: sources are matched by %s, expected the grid row" % tables[(0, "reduce")].get("source"))
+        ctx.ob("C18.cvc.partner-table", "isNotCommPartnerCVC", not det, "; ".join(sorted(set(det))[:3]), fn.loc(), "cvc", fnkey=f["key"])
+
+
 def structures(ctx, fx):
     ctx.rule("C18.struct.operation",
              "expanded sync structures of the distributed applications (class name Reduce_<op>_<field>): reduce applies the "
@@ -732,6 +810,7 @@ def run(ctx):
     subset(ctx, fx)
     modes(ctx, fx)
     reset_ranges(ctx, fx)
+    cvc_partners(ctx, fx)
     structures(ctx, fx)
     net_shape(ctx, fx)
     fxp = ctx.load("drv_distgluon", patterns=True)
